@@ -1,6 +1,7 @@
 import RichModel.Lemmas.Ratio
 import RichModel.Props.C01
 import RichModel.Props.C17
+import RichModel.Lemmas.LayoutTextSep
 /-!
 # C09 — measurements are sound bounds on what rendering produces
 
@@ -151,6 +152,58 @@ theorem text_at_max_not_wrapped (cw : Char → Nat) (t : T) (w : Nat) (fold : Bo
     (hw : (textRichMeasure cw t).maximum ≤ (w : Int)) :
     ∀ p ∈ Layout.pieces t.plain, Wrap.divideLine cw p w fold = [] :=
   Layout.text_at_max_not_wrapped cw t w fold hnb hw
+
+/-! ### the other `str.splitlines` separators, and tabs (follow-up of the fourth deepening round) -/
+
+/-- a text with a FILE SEPARATOR (U+001C): `Text("aaa\x1cbbb cc")` -/
+def sepText (n : Nat) : T := Text.new Variant.repaired ['a', 'a', 'a', Char.ofNat n, 'b', 'b', 'b', ' ', 'c', 'c'] [0]
+
+/-- **The hypothesis of `text_at_max_not_wrapped` is necessary — and the code as it is wraps a tab-free text at its own maximum.**
+`Text.__rich_measure__` splits with `str.splitlines()`, `Text.wrap` at `"\n"` only: with any of FS, GS, RS, NEL, LS, PS inside
+(all of them zero cells wide) the text `aaa<sep>bbb cc` — ONE 9-cell line for `wrap` — is measured (3, 6), and rendered at 6 it is wrapped
+into a 6-cell and a 2-cell line.  No line is wider than the measurement (soundness holds: `text_render_at_measure_fits`), but "given
+its maximum it is never wrapped" fails.  Same on real rich for all six separators (`Measurement(3, 6)`, lines `aaa<sep>bbb` / `cc`). -/
+theorem separator_text_is_wrapped_at_its_maximum :
+    ([28, 29, 30, 0x85, 0x2028, 0x2029].all fun n =>
+      textRichMeasure cwR (sepText n) == ⟨3, 6⟩ && C01.widthsOf (.text (sepText n)) 6 == [6, 2] &&
+        (Layout.pieces (sepText n).plain).map (fun p => Wrap.divideLine cwR p 6 false) == [[8]]) = true := by decide +kernel
+
+/-- **text_at_max_not_wrapped_repaired.**  With the one-token repair of the measurement (`text.split("\n")` instead of
+`text.splitlines()`: `Layout.textRichMeasureNl`) a text given at least its measured maximum is never wrapped — EVERY text, whatever
+separators it contains, no hypothesis. -/
+theorem text_at_max_not_wrapped_repaired (cw : Char → Nat) (t : T) (w : Nat) (fold : Bool)
+    (hw : (Layout.textRichMeasureNl cw t).maximum ≤ (w : Int)) :
+    ∀ p ∈ Layout.pieces t.plain, Wrap.divideLine cw p w fold = [] :=
+  Layout.text_at_max_not_wrapped_nl cw t w fold hw
+
+/-- …and the repair changes nothing for the texts `text_at_max_not_wrapped` speaks about (only `\n` among the separators) -/
+theorem repaired_measure_agrees_without_other_separators (cw : Char → Nat) (t : T)
+    (hnb : ∀ c ∈ t.plain, isLineBreak c = true → c = '\n') : Layout.textRichMeasureNl cw t = textRichMeasure cw t :=
+  Layout.textRichMeasureNl_eq cw t hnb
+
+/-- the repaired measurement of the separator text is its real line: (3, 9) — at 9 it is not wrapped -/
+example : Layout.textRichMeasureNl cwR (sepText 28) = ⟨3, 9⟩ ∧ C01.widthsOf (.text (sepText 28)) 9 = [9] := by decide +kernel
+
+/-- Why the statement says "text without tab characters": tabs are expanded (to the next multiple of 8) by `Text.__rich_console__`
+BEFORE wrapping but not by `Text.__rich_measure__`, which counts a tab as 0 cells: `Text("aaa\tbbb cc")` measures (3, 9) and is
+wrapped at 9 into an 8-cell and a 6-cell line (its expanded line is 14 cells).  Still sound: no line wider than 9. -/
+theorem tab_text_is_wrapped_at_its_maximum :
+    textRichMeasure cwR (Text.new Variant.repaired "aaa\tbbb cc".toList [0]) = ⟨3, 9⟩ ∧
+    C01.widthsOf (.text (Text.new Variant.repaired "aaa\tbbb cc".toList [0])) 9 = [8, 6] := by decide +kernel
+
+/-- **The finding `text-measure-splitlines` on the model's variant flag** (`textRichMeasureV`, what the driver answers request
+`layout_text_spec` with): for the code since the fix (`false`) a text given at least its measured maximum is never wrapped — every
+text, no hypothesis; -/
+theorem text_at_max_not_wrapped_fixed (cw : Char → Nat) (t : T) (w : Nat) (fold : Bool)
+    (hw : (textRichMeasureV false cw t).maximum ≤ (w : Int)) :
+    ∀ p ∈ Layout.pieces t.plain, Wrap.divideLine cw p w fold = [] := by
+  rw [Layout.textRichMeasureV_false] at hw
+  exact Layout.text_at_max_not_wrapped_nl cw t w fold hw
+
+/-- …and the as-found variant (`true`) violates it: `aaa<FS>bbb cc` measures (3, 6) and `divide_line` breaks its paragraph at 6. -/
+theorem old_text_measure_splitlines_wraps_at_maximum :
+    (textRichMeasureV true cwR (sepText 28)).maximum = 6 ∧ (textRichMeasureV false cwR (sepText 28)).maximum = 9 ∧
+    (Layout.pieces (sepText 28).plain).map (fun p => Wrap.divideLine cwR p 6 false) = [[8]] := by decide +kernel
 
 /-- a paragraph that fits is left alone -/
 theorem divide_line_nil_of_fits (cw : Char → Nat) (text : List Char) (w : Nat) (fold : Bool) (h : cellLen cw text ≤ w) :
